@@ -393,7 +393,8 @@ func (ps *PathSum) load(s *psState, addr string, f *psFrame, t types.Type) strin
 						break
 					}
 				}
-				freshField = !whole && !copied && someField
+				_, zeroed := s.cells["&zeroalloc:"+base]
+				freshField = !whole && !copied && (someField || zeroed)
 			}
 		}
 		if strings.Contains(loc, "#") && (!strings.Contains(loc, ".") || freshField) && !strings.Contains(loc, "[") {
@@ -674,6 +675,10 @@ func (ps *PathSum) exec(s *psState, f *psFrame) []*psOutcome {
 			if x.Heap {
 				// "new" allocations are distinct objects per site
 				f.vals[x] = fmt.Sprintf("&%s_%s#%d", strings.ReplaceAll(x.Comment, " ", "_"), x.Name(), f.id)
+			}
+			if _, isStruct := derefType(x.Type()).Underlying().(*types.Struct); isStruct {
+				// Go zero-initialises every allocation: fields of this struct read before they are written are zero
+				s.cells["&zeroalloc:"+f.vals[x][1:]] = "1"
 			}
 		case *ssa.Store:
 			addr, v := ps.val(f, x.Addr), ps.val(f, x.Val)
@@ -1354,4 +1359,12 @@ func signDecide(preds map[string]bool, atom string) (bool, bool) {
 		return true, true
 	}
 	return false, false
+}
+
+
+func derefType(t types.Type) types.Type {
+	if p, ok := t.Underlying().(*types.Pointer); ok {
+		return p.Elem()
+	}
+	return t
 }
